@@ -37,14 +37,20 @@ theorem mapM_congr_opt {α β : Type} (g g' : α → Option β) :
     simp only [List.mapM_cons]
     rw [h a (by simp), ih (fun b hb => h b (by simp [hb]))]
 
+theorem compute3_congr {s t : State V} {p : Field} (h : SameDeps C s t p) : compute3 C W t p = compute3 C W s p := by
+  unfold compute3
+  have : p.deps.mapM (fun d => (getField C d).bind (fieldGet W t)) =
+      p.deps.mapM (fun d => (getField C d).bind (fieldGet W s)) := by
+    apply mapM_congr_opt
+    intro d hd
+    cases hg : getField C d with
+    | none => rfl
+    | some df => exact fieldGet_congr (h d hd df hg)
+  rw [this]
+
 theorem compute_congr {s t : State V} {p : Field} (h : SameDeps C s t p) : compute C W t p = compute C W s p := by
   unfold compute
-  congr 1
-  apply mapM_congr_opt
-  intro d hd
-  cases hg : getField C d with
-  | none => rfl
-  | some df => exact fieldGet_congr (h d hd df hg)
+  rw [compute3_congr h]
 
 theorem ready_congr {s t : State V} {p : Field} (h : SameDeps C s t p) (hr : Ready C s p) : Ready C t p := by
   intro d hd df hg
@@ -65,9 +71,9 @@ theorem dep_resolves (hwf : WF C) {p : Field} (hp : p ∈ C.fields) (hpp : p.isP
   exact ⟨f, by rw [← hfn]; exact getField_name hwf hf⟩
 
 /-- a change of the keys at a property's own name only does not disturb any property's dependencies -/
-theorem sameDeps_of_prop_key (hwf : WF C) {s : State V} {q : Field} (hq : q ∈ C.fields) (hqp : q.isProp = true)
-    (w : V) {r : Field} (hr : r ∈ C.fields) (hrp : r.isProp = true) :
-    SameDeps C s { s with data := s.data.set q.name w } r := by
+theorem sameDeps_of_prop_key (hwf : WF C) {s t : State V} {q : Field} (hq : q ∈ C.fields) (hqp : q.isProp = true)
+    (hattrs : t.attrs = s.attrs) (hdata : ∀ k, k ≠ q.name → t.data.get k = s.data.get k)
+    {r : Field} (hr : r ∈ C.fields) (hrp : r.isProp = true) : SameDeps C s t r := by
   intro d hd df hg
   obtain ⟨hdf, _, hdp⟩ := dep_field hwf hr hrp hd hg
   have hne : df.name ≠ q.name := by
@@ -76,7 +82,7 @@ theorem sameDeps_of_prop_key (hwf : WF C) {s : State V} {q : Field} (hq : q ∈ 
     subst this
     rw [hqp] at hdp
     cases hdp
-  simp [stored, get_set, hne]
+  simp [stored, hattrs, hdata _ hne]
 
 theorem blocked_false_of_ready (hwf : WF C) {s : State V} {p : Field} (hp : p ∈ C.fields) (hpp : p.isProp = true)
     (hr : Ready C s p) : blocked C s p = false := by
@@ -110,61 +116,23 @@ theorem ready_of_not_blocked (hwf : WF C) {s : State V} {p : Field} (hp : p ∈ 
     rw [hdf] at this
     cases h1 : s.data.has d <;> cases h2 : s.attrs.has df.attname <;> simp_all
 
-/-- with every dependency readable the early return of `__coerce_property__` is not taken -/
-theorem coerce_of_ready (hwf : WF C) {s : State V} {p : Field} (hp : p ∈ C.fields) (hpp : p.isProp = true)
-    (hr : Ready C s p) :
-    coerce C W s p = match compute C W s p with
-      | none => s
-      | some v => { s with data := s.data.set p.name v } := by
-  unfold coerce
-  rw [(hwf.propPlain p hp hpp).2.2.1, blocked_false_of_ready hwf hp hpp hr]
-  simp only [Bool.false_eq_true, if_false]
-  cases compute C W s p <;> rfl
-
-/-- … and when it is not taken, every dependency is readable -/
-theorem ready_of_coerce (hwf : WF C) {s : State V} {p : Field} (hp : p ∈ C.fields) (hpp : p.isProp = true)
-    (h : coerce C W s p ≠ s) : Ready C s p := by
-  apply ready_of_not_blocked hwf hp hpp
+/-- what one recomputation does, as far as the stored properties are concerned -/
+theorem coerce_outcome (hwf : WF C) {s : State V} {p : Field} (hp : p ∈ C.fields) (hpp : p.isProp = true)
+    (hok : (coerce false C W s p).2 = false) :
+    (co C W s p = s ∧ blocked C s p = true) ∨
+    (Ready C s p ∧ co C W s p = { s with data := s.data.del p.name }) ∨
+    (Ready C s p ∧ ∃ w, compute C W s p = some w ∧ co C W s p = { s with data := s.data.set p.name w }) := by
+  have hno := (hwf.propPlain p hp hpp).2.2.1
   cases hb : blocked C s p with
-  | false => rfl
   | true =>
-    exfalso
-    apply h
-    unfold coerce
-    simp [hb]
-
-theorem compute_some_of_ready (hwf : WF C) (htot : ∀ p xs, (W.getter p xs).isSome = true) {s : State V} {p : Field}
-    (hp : p ∈ C.fields) (hpp : p.isProp = true) (hr : Ready C s p) : ∃ v, compute C W s p = some v := by
-  unfold compute
-  have : ∃ xs, p.deps.mapM (fun d => (getField C d).bind (fieldGet W s)) = some xs := by
-    suffices ∀ l : List String, (∀ d ∈ l, d ∈ p.deps) →
-        ∃ xs, l.mapM (fun d => (getField C d).bind (fieldGet W s)) = some xs from this p.deps (fun _ h => h)
-    intro l
-    induction l with
-    | nil => intro _; exact ⟨[], rfl⟩
-    | cons d l ih =>
-      intro hl
-      obtain ⟨xs, hxs⟩ := ih (fun x hx => hl x (by simp [hx]))
-      have hd : d ∈ p.deps := hl d (by simp)
-      obtain ⟨df, hg⟩ := dep_resolves hwf hp hpp hd
-      have hav := hr d hd df hg
-      have : ∃ x, fieldGet W s df = some x := by
-        unfold avail has at hav
-        unfold fieldGet
-        cases h1 : s.data.get df.name with
-        | some x => exact ⟨x, rfl⟩
-        | none =>
-          cases h2 : s.attrs.get df.attname with
-          | some x => exact ⟨x, rfl⟩
-          | none => simp [h1, h2] at hav
-      obtain ⟨x, hx⟩ := this
-      exact ⟨x :: xs, by simp [List.mapM_cons, hg, hx, hxs]⟩
-  obtain ⟨xs, hxs⟩ := this
-  rw [hxs]
-  have := htot p.name xs
-  cases hgt : W.getter p.name xs with
-  | none => simp [hgt] at this
-  | some v => exact ⟨v, by simp [hgt]⟩
+    left
+    exact ⟨by simp [co, coerce, hno, hb], rfl⟩
+  | false =>
+    have hr := ready_of_not_blocked hwf hp hpp hb
+    cases hc : compute3 C W s p with
+    | raised => right; left; exact ⟨hr, by simp [co, coerce, hno, hb, hc]⟩
+    | unconvertible => simp [coerce, hno, hb, hc] at hok
+    | value w => right; right; exact ⟨hr, w, by simp [compute, hc], by simp [co, coerce, hno, hb, hc]⟩
 
 /-- `Fresh` with some properties waiting for their recomputation (names in `S`) -/
 def FreshPending (C : Cls) (W : World V) (S : List String) (s : State V) : Prop :=
@@ -180,28 +148,21 @@ theorem fresh_iff_pending_nil (s : State V) : Fresh C W s ↔ FreshPending C W [
     obtain ⟨h1, h2⟩ := h p hp hpp v hv
     exact ⟨h2 (by simp), h1⟩
 
-/-- one recomputation: the property itself becomes fresh, the others are not disturbed -/
-theorem pending_coerce (hwf : WF C) (htot : ∀ p xs, (W.getter p xs).isSome = true) {S : List String} {s : State V}
-    {p : Field} (hp : p ∈ C.fields) (hpp : p.isProp = true) (h : FreshPending C W (p.name :: S) s) :
-    FreshPending C W S (coerce C W s p) := by
-  -- what the recomputation does
-  have hcase : coerce C W s p = s ∧ s.data.get p.name = none ∨
-      ∃ w, compute C W s p = some w ∧ Ready C s p ∧ coerce C W s p = { s with data := s.data.set p.name w } := by
-    cases hget : s.data.get p.name with
-    | some v =>
-      have hr := (h p hp hpp v hget).1
-      obtain ⟨w, hw⟩ := compute_some_of_ready hwf htot hp hpp hr
-      refine Or.inr ⟨w, hw, hr, ?_⟩
-      rw [coerce_of_ready hwf hp hpp hr, hw]
-    | none =>
-      by_cases e : coerce C W s p = s
-      · exact Or.inl ⟨e, rfl⟩
-      · have hr := ready_of_coerce hwf hp hpp e
-        rcases coerce_cases (C := C) (W := W) s p with e' | ⟨w, hw, e'⟩
-        · exact absurd e' e
-        · exact Or.inr ⟨w, hw, hr, e'⟩
-  rcases hcase with ⟨e, hnone⟩ | ⟨w, hw, hr, e⟩
-  · rw [e]
+/-- one recomputation that did not raise: the property itself becomes fresh (or is dropped), the others are
+not disturbed -/
+theorem pending_coerce (hwf : WF C) {S : List String} {s : State V}
+    {p : Field} (hp : p ∈ C.fields) (hpp : p.isProp = true) (h : FreshPending C W (p.name :: S) s)
+    (hok : (coerce false C W s p).2 = false) : FreshPending C W S (co C W s p) := by
+  rcases coerce_outcome (W := W) hwf hp hpp hok with ⟨e, hb⟩ | ⟨hr, e⟩ | ⟨hr, w, hw, e⟩
+  · -- early return: nothing of p can be stored (a stored one has readable dependencies)
+    have hnone : s.data.get p.name = none := by
+      cases hget : s.data.get p.name with
+      | none => rfl
+      | some v =>
+        have := blocked_false_of_ready hwf hp hpp (h p hp hpp v hget).1
+        rw [hb] at this
+        cases this
+    rw [e]
     intro r hr hrp v hv
     obtain ⟨h1, h2⟩ := h r hr hrp v hv
     refine ⟨h1, fun hn => h2 ?_⟩
@@ -209,9 +170,28 @@ theorem pending_coerce (hwf : WF C) (htot : ∀ p xs, (W.getter p xs).isSome = t
     rcases List.mem_cons.mp hmem with e' | e'
     · rw [e', hnone] at hv; cases hv
     · exact hn e'
+  · -- the getter raised: the value is dropped
+    rw [e]
+    intro r hr' hrp v hv
+    have hsame : SameDeps C s { s with data := s.data.del p.name } r :=
+      sameDeps_of_prop_key (s := s) (t := { s with data := s.data.del p.name }) hwf hp hpp rfl
+        (fun k hk => by simp [get_del, hk]) hr' hrp
+    by_cases er : r.name = p.name
+    · simp [get_del, er] at hv
+    · simp only [get_del, er, if_false] at hv
+      obtain ⟨h1, h2⟩ := h r hr' hrp v hv
+      refine ⟨ready_congr hsame h1, fun hn => ?_⟩
+      rw [compute_congr hsame]
+      apply h2
+      intro hmem
+      rcases List.mem_cons.mp hmem with e' | e'
+      · exact er e'
+      · exact hn e'
   · rw [e]
     intro r hr' hrp v hv
-    have hsame := sameDeps_of_prop_key hwf hp hpp w hr' hrp (s := s)
+    have hsame : SameDeps C s { s with data := s.data.set p.name w } r :=
+      sameDeps_of_prop_key (s := s) (t := { s with data := s.data.set p.name w }) hwf hp hpp rfl
+        (fun k hk => by simp [get_set, hk]) hr' hrp
     by_cases er : r.name = p.name
     · have := name_inj hwf hr' hp er
       subst this
@@ -228,29 +208,26 @@ theorem pending_coerce (hwf : WF C) (htot : ∀ p xs, (W.getter p xs).isSome = t
       · exact er e'
       · exact hn e'
 
-theorem fresh_coerce (hwf : WF C) (htot : ∀ p xs, (W.getter p xs).isSome = true) {s : State V} {p : Field}
-    (hp : p ∈ C.fields) (hpp : p.isProp = true) (h : Fresh C W s) : Fresh C W (coerce C W s p) := by
+theorem fresh_coerce (hwf : WF C) {s : State V} {p : Field}
+    (hp : p ∈ C.fields) (hpp : p.isProp = true) (h : Fresh C W s) (hok : (coerce false C W s p).2 = false) :
+    Fresh C W (co C W s p) := by
   rw [fresh_iff_pending_nil] at h ⊢
-  apply pending_coerce hwf htot hp hpp
+  apply pending_coerce hwf hp hpp _ hok
   intro r hr hrp v hv
   obtain ⟨h1, h2⟩ := h r hr hrp v hv
   exact ⟨h1, fun _ => h2 (by simp)⟩
 
-/-- the dependants loop (schema.py:343-348) discharges the pending set -/
-theorem pending_loop (hwf : WF C) (htot : ∀ p xs, (W.getter p xs).isSome = true) {f : Field} (hf : f ∈ C.fields) :
+/-- the dependants loop (schema.py:357-362), when nothing escaped, discharges the pending set -/
+theorem pending_loop (hwf : WF C) {f : Field} (hf : f ∈ C.fields) :
     ∀ (l : List String), (∀ q ∈ l, q ∈ f.dependants) → ∀ s : State V, FreshPending C W l s →
-      Fresh C W (l.foldl (fun s q =>
-        match getField C q with
-        | some p => if p.isProp then coerce C W s p else s
-        | none => s) s) := by
+      (coerceList false C W s l).2 = false → Fresh C W (coerceList false C W s l).1 := by
   intro l
   induction l with
-  | nil => intro _ s h; exact (fresh_iff_pending_nil s).mpr h
+  | nil => intro _ s h _; exact (fresh_iff_pending_nil s).mpr h
   | cons q l ih =>
-    intro hl s h
-    simp only [List.foldl_cons]
-    apply ih (fun x hx => hl x (by simp [hx]))
+    intro hl s h hok
     have hq : q ∈ f.dependants := hl q (by simp)
+    have ih' := ih (fun x hx => hl x (by simp [hx]))
     -- a pending name that resolves to no property has nothing waiting
     have skip : (∀ p, getField C q = some p → p.isProp = false) → FreshPending C W l s := by
       intro hno r hr hrp v hv
@@ -262,24 +239,32 @@ theorem pending_loop (hwf : WF C) (htot : ∀ p xs, (W.getter p xs).isSome = tru
         rw [hrp] at this
         cases this
       · exact hn e'
-    split
-    · rename_i p hg
-      split
-      · rename_i hpp
+    simp only [coerceList] at hok ⊢
+    cases hg : getField C q with
+    | none =>
+      simp only [hg] at hok ⊢
+      exact ih' s (skip (fun p' hg' => by rw [hg] at hg'; cases hg')) hok
+    | some p =>
+      simp only [hg] at hok ⊢
+      cases hpp : p.isProp with
+      | false =>
+        simp only [hpp] at hok ⊢
+        exact ih' s (skip (fun p' hg' => by rw [hg] at hg'; cases hg'; exact hpp)) hok
+      | true =>
+        simp only [hpp, if_true] at hok ⊢
         have hpn : p.name = q := hwf.depNames f hf q hq p hg
-        rw [← hpn] at h
-        exact pending_coerce hwf htot (getField_some hg).1 hpp h
-      · rename_i hpp
-        apply skip
-        intro p' hg'
-        rw [hg] at hg'
-        cases hg'
-        simpa using hpp
-    · rename_i hg
-      apply skip
-      intro p' hg'
-      rw [hg] at hg'
-      cases hg'
+        cases hc : coerce false C W s p with
+        | mk s' b =>
+          simp only [hc] at hok ⊢
+          cases b with
+          | true => simp at hok
+          | false =>
+            simp only at hok ⊢
+            have hco : co C W s p = s' := by simp [co, hc]
+            rw [← hpn] at h
+            have := pending_coerce hwf (getField_some hg).1 hpp h (by rw [hc])
+            rw [hco] at this
+            exact ih' s' this hok
 
 /-- a change that leaves every stored property and its dependencies alone keeps `Fresh` -/
 theorem fresh_of_frame {s t : State V} (h : Fresh C W s)
@@ -290,13 +275,13 @@ theorem fresh_of_frame {s t : State V} (h : Fresh C W s)
   obtain ⟨h2, h3⟩ := h r hr hrp v h1
   exact ⟨by rw [compute_congr hsame]; exact h2, ready_congr hsame h3⟩
 
-theorem fresh_prim (hwf : WF C) (htot : ∀ p xs, (W.getter p xs).isSome = true) (s : State V) (p : Prim V)
-    (h : Fresh C W s) (hok : Prim.ok true C W s p) : Fresh C W (p.apply C W s) := by
+theorem fresh_prim (hwf : WF C) {xs : List V} (s : State V) (p : Prim V)
+    (h : Fresh C W s) (hok : Prim.ok true xs C W s p) : Fresh C W (p.apply C W s) := by
   cases p with
   | store f pv =>
-    obtain ⟨hf, hfp, _, _, _⟩ := hok
-    simp only [Prim.apply, coerceDependants]
-    apply pending_loop hwf htot hf f.dependants (fun _ hq => hq)
+    obtain ⟨hf, hfp, _, _, _, hnoerr⟩ := hok
+    simp only [Prim.apply, coerceDependants] at hnoerr ⊢
+    refine pending_loop hwf hf f.dependants (fun _ hq => hq) _ ?_ hnoerr
     -- after the store: every stored property still has readable dependencies; those not depending on f are fresh
     have hdata : ∀ r ∈ C.fields, r.isProp = true → (storeField s f pv).data.get r.name = s.data.get r.name := by
       intro r hr hrp
@@ -337,7 +322,7 @@ theorem fresh_prim (hwf : WF C) (htot : ∀ p xs, (W.getter p xs).isSome = true)
         exact hn (hwf.depsListed r hr hrp df hdf (by rw [hdn]; exact hd))
       rw [compute_congr hsame]
       exact h1
-  | recompute q => exact fresh_coerce hwf htot hok.1 hok.2 h
+  | recompute q => exact fresh_coerce hwf hok.1 hok.2.1 h hok.2.2
   | setAdd k v =>
     have hk : getField C k = none := hok.1
     have hne : ∀ g ∈ C.fields, g.name ≠ k := fun g hg => getField_none_ne hwf hk hg
@@ -382,7 +367,7 @@ theorem fresh_prim (hwf : WF C) (htot : ∀ p xs, (W.getter p xs).isSome = true)
     intro r hr hrp v hv
     simp [Prim.apply] at hv
   | setAttrOther a v =>
-    have ha : fieldByAtt C a = none := hok
+    have ha : fieldByAtt C a = none := hok.1
     apply fresh_of_frame h
     intro r hr hrp v' hv
     refine ⟨hv, ?_⟩
